@@ -259,6 +259,9 @@ class C10(World):
                 s = [round(mx.rand_scale(rng), 3) for _ in range(3)]
                 if abs(s[0] - s[1]) < 0.1:
                     s[1] = round(s[0] * 1.6, 3)
+                if rng.random() < 0.15:
+                    # three factors that agree to a few parts per million - and are three factors all the same
+                    s = [s[0], s[0], s[0] * (1.0 + 5e-6)]
                 op["scale"] = s
             if kind == "convert_units":
                 op["to"] = rng.choice(["mm", "in", "feet"])
